@@ -99,6 +99,36 @@ def load_known(cid):
     return [e for e in data.get("findings", []) if e["property"] == cid]
 
 
+CASE_TIMEOUT = int(os.environ.get("VERIF_CASE_TIMEOUT", "900"))
+
+
+class _watchdog:
+    """A single case normally takes milliseconds.  One that has not ended after CASE_TIMEOUT seconds is abandoned and the
+    run ends as *inconclusive* (harness error, exit 2) - never as a violation, and never as a run that hangs."""
+
+    def __enter__(self):
+        import signal, threading
+
+        self.on = threading.current_thread() is threading.main_thread() and hasattr(signal, "SIGALRM")
+        if self.on:
+            def fire(signum, frame):
+                from vf.core.env import HarnessError
+
+                raise HarnessError(f"a case did not finish within {CASE_TIMEOUT} s (inconclusive; VERIF_CASE_TIMEOUT)")
+
+            self.old = signal.signal(signal.SIGALRM, fire)
+            signal.alarm(CASE_TIMEOUT)
+        return self
+
+    def __exit__(self, *exc):
+        if self.on:
+            import signal
+
+            signal.alarm(0)
+            signal.signal(signal.SIGALRM, self.old)
+        return False
+
+
 def run_one(check, case, stats, open_keys):
     """Run one case.  Returns None, ('attributed', key) or raises Violation."""
     from vf.core.prog import OutOfDomain
@@ -106,7 +136,8 @@ def run_one(check, case, stats, open_keys):
 
     stats.evaluations += 1
     try:
-        check.run_case(case, stats)
+        with _watchdog():
+            check.run_case(case, stats)
     except OutOfDomain as e:
         stats.c[f"discard:{e.reason}"] += 1
         return None
@@ -137,6 +168,13 @@ def shard_main(args):
     """Runs in a worker process."""
     cid, tier, seed, shard, nshards, n_examples, open_keys, mode = args
     setup_path()
+    try:  # a runaway case ends in MemoryError (classified like any other exception) instead of exhausting the machine
+        import resource
+
+        lim = int(os.environ.get("VERIF_WORKER_MEM_GB", "8")) << 30
+        resource.setrlimit(resource.RLIMIT_AS, (lim, lim))
+    except Exception:
+        pass
     import hypothesis
     from hypothesis import HealthCheck, Phase, given, settings
 
